@@ -56,6 +56,9 @@ def run(w: World, rep: Report):
     rep.rule('C02.R4', 'length guards (key 32, signature 64/65 resp. 64) dominate every verification', floor=4)
     rep.rule('C02.R5', 'result mapping: true only on the fall-through of verify; the bad-signature handler puts false', floor=4)
     rep.rule('C02.R7', 'OP_CHECK_TEMPLATE flag table: field i is selected by bit 1<<(i-1)', floor=8)
+    from . import symwalk as _sw
+    from .feval import module_consts
+    _sw.DEFAULT_CONSTS[0] = module_consts(w.repo, 'functions')
     gm = w.handler_for('OP_GET_MESSAGE')
     cs = w.handler_for('OP_CHECK_SIG')
     css = w.handler_for('OP_CHECK_SIG_STACK')
@@ -148,10 +151,13 @@ def run(w: World, rep: Report):
     sigflag_vars = set()
     for e in sw2.events:
         if e.kind == 'assign' and e.target and isinstance(e.node, ast.Assign):
-            src = ast.unparse(e.node.value).replace(' ', '')
-            if re.fullmatch(r'0iflen\((\w+)\)==.*else\1\[-1\]', _resolve_txt(src)) or \
-                    re.fullmatch(r'(\w+)\[-1\]iflen\(\1\)==.*else0', _resolve_txt(src)):
-                sigflag_vars.add(e.target)
+            # the flag is the 65th byte of a 65-byte signature and 0 for a 64-byte one - decided by evaluating the
+            # defining expression on a 64- and a 65-byte string whose bytes are their own positions
+            srcs = {n.id for n in ast.walk(e.node.value) if isinstance(n, ast.Name)}
+            for sv_ in srcs:
+                vals = _value_by_length(e.node.value, sv_, (64, 65))
+                if vals is not None and vals[64] == 0 and vals[65] == 64 and type(vals[65]) is int:
+                    sigflag_vars.add(e.target)
     if len(sigflag_vars) != 1:
         rep.check('C02.R3', f'functions.{cs.name}|flag-from-signature', False, line=cs.node.lineno, file=REL,
                   why='the signature flag is not `sig[-1]` when the signature is 65 bytes, else 0')
@@ -177,10 +183,20 @@ def run(w: World, rep: Report):
                     outer.append(mm[1])
         guards_found.setdefault(m_allow[1], []).append((outer, cls, getattr(e.node, 'lineno', 0)))
     single = _single_subset_guard(sw2, scfg, sigflag_vars, allow_vars)
+    # semantic reading first: the conjunction of all guards that speak about the two flag bytes, each under its path
+    # condition, evaluated for every signature flag and a grid of allowed-flags operands, must be `flag & ~allowed == 0`
+    # - whatever the spelling (per-bit ifs, one subset test, a loop, all(...) over a generator, shifts, enum masks)
+    sem = _subset_semantics(sw2, sigflag_vars, allow_vars) if len(sigflag_vars) == 1 and len(allow_vars) == 1 else None
     for i in range(1, 9):
         m = 1 << (i - 1)
         why = ''
-        if single:
+        if sem is not None:
+            F = sem
+            if F(m, 0xFF ^ m) is not False:
+                why = f'a signature flag with bit {m:#04x} set is not refused when the allowed-flags operand lacks that bit'
+            elif F(m, m) is not True or F(m, 0xFF) is not True:
+                why = f'a signature flag with bit {m:#04x} set is refused although the allowed-flags operand permits it'
+        elif single:
             pass
         elif m not in guards_found:
             why = f'no guard requires bit {m:#04x} of the allowed-flags operand'
@@ -192,10 +208,27 @@ def run(w: World, rep: Report):
             elif cls != 'ScriptExecutionError':
                 why = ''      # a different error class is still an error, never true: tolerated
         rep.check('C02.R2', f'functions.{cs.name}|allowed-bit|{m:#04x}', not why, line=cs.node.lineno, file=REL, why=why)
+    if sem is not None:
+        cex = None
+        grid = [0, 0xFF] + [1 << b for b in range(8)] + [0xFF ^ (1 << b) for b in range(8)] + [0x55, 0xAA, 0x0F, 0xF0, 0x7B]
+        for a_ in grid:
+            for v_ in range(256):
+                if sem(v_, a_) is not ((v_ & ~a_ & 0xFF) == 0):
+                    cex = (v_, a_, sem(v_, a_))
+                    break
+            if cex:
+                break
+        rep.check('C02.R2', f'functions.{cs.name}|allowed-flags-subset-exact', cex is None, line=cs.node.lineno, file=REL,
+                  why='' if cex is None else
+                  f'with signature flag {cex[0]:#04x} and allowed flags {cex[1]:#04x} the guards {"pass" if cex[2] else "refuse"}; '
+                  f'documented: pass exactly when every set flag bit is allowed')
     # the guards precede message build and verify (structured order of events)
     first_build = min([e.seq for e in sw2.events if e.kind == 'call' and isinstance(e.node.func, ast.Name)
                        and e.node.func.id == gm.name] or [0])
     last_guard = max([e.seq for e in sw2.events if e.kind == 'guard' and mask_of(e.expr, allow_vars) is not None] or [0])
+    if sem is not None:
+        from .feval import free_names as _fn
+        last_guard = max([e.seq for e in sw2.events if e.kind == 'guard' and (_fn(e.expr) & (allow_vars | sigflag_vars))] or [0])
     ok = first_build > 0 and (single or 0 < last_guard < first_build)
     rep.check('C02.R2', f'functions.{cs.name}|checked-before-verification', ok, line=cs.node.lineno, file=REL,
               why='' if ok else 'the allowed-flag check does not precede message construction / verification')
@@ -344,10 +377,11 @@ def run(w: World, rep: Report):
     # CHECK_SIG strips exactly the trailing byte when 65 long
     ok = False
     for n in ast.walk(cs.node):
-        if isinstance(n, ast.Assign) and isinstance(n.value, ast.IfExp):
-            t = _resolve_txt(ast.unparse(n.value).replace(' ', ''))
-            if re.fullmatch(r'(\w+)iflen\(\1\)==64else\1\[:-1\]', t):
-                ok = True
+        if isinstance(n, ast.Assign):
+            for sv_ in {x.id for x in ast.walk(n.value) if isinstance(x, ast.Name)}:
+                vals = _value_by_length(n.value, sv_, (64, 65))
+                if vals is not None and vals[64] == bytes(range(64)) and vals[65] == bytes(range(64)):
+                    ok = True
     rep.check('C02.R3', f'functions.{cs.name}|strip-flag-byte', ok, line=cs.node.lineno, file=REL,
               why='' if ok else 'the 64-byte signature handed to verify is not `sig` / `sig[:-1]`')
 
@@ -364,15 +398,8 @@ def run(w: World, rep: Report):
             for t in cfgh.nodes:
                 if t.kind != 'test':
                     continue
-                txt = _resolve_txt(ast.unparse(t.ast).replace(' ', ''))
-                m = re.fullmatch(r'len\((\w+)\)==(\d+)', txt)
-                m2 = re.fullmatch(r'len\((\w+)\)in\((\d+),(\d+)\+1\)', txt) or re.fullmatch(r'len\((\w+)\)in\((\d+),(\d+)\)', txt)
-                got = None
-                if m:
-                    got = (m.group(1), (int(m.group(2)),))
-                elif m2:
-                    b = int(m2.group(3)) + (1 if '+1' in txt else 0)
-                    got = (m2.group(1), tuple(sorted((int(m2.group(2)), b))))
+                al = _accepted_lengths(t.ast)
+                got = (al[0], tuple(sorted(al[1]))) if al is not None else None
                 if got is None or got[1] != tuple(sorted(lens)):
                     continue
                 var = got[0]
@@ -448,6 +475,64 @@ def run(w: World, rep: Report):
     # plugin-exactly-once is decided in C09.R4
 
 
+def _nacl_consts(t: str):
+    return NACL_CONST.get(t, _sw_consts(t))
+
+
+def _sw_consts(t: str):
+    from . import symwalk as _sw
+    c = _sw.DEFAULT_CONSTS[0]
+    return c(t) if c is not None else None
+
+
+def _accepted_lengths(test: ast.AST, upto: int = 80):
+    """(variable, set of byte lengths L for which the test can hold) for a test that constrains the length of one
+    name - whatever the spelling (`len(x) == 64`, `len(x) in (64, 65)`, `64 <= len(x) <= 65`, `len(x) - 64 in (0, 1)`).
+    Conjuncts that speak about something else (type tests) are left out.  None if no conjunct constrains a length."""
+    from .feval import feval, Unknown
+    atoms = atoms_of(test, True)
+    if atoms is None:
+        atoms = [(test, True)]
+    var = None
+    for a, _ in atoms:
+        for n in ast.walk(a):
+            if isinstance(n, ast.Call) and isinstance(n.func, ast.Name) and n.func.id == 'len' and n.args and \
+                    isinstance(n.args[0], ast.Name):
+                var = var or n.args[0].id
+    if var is None:
+        return None
+    ok = set()
+    used = False
+    for L in range(upto + 1):
+        good = True
+        for a, pol in atoms:
+            try:
+                v = bool(feval(a, {var: bytes(L)}, _nacl_consts))
+            except Unknown:
+                continue
+            used = True
+            if v != pol:
+                good = False
+                break
+        if good:
+            ok.add(L)
+    if not used:
+        return None
+    return var, ok
+
+
+def _value_by_length(e: ast.AST, var: str, lengths):
+    """{L: value of e} with `var` bound to the bytes 0,1,2,...,L-1 (so positions are recognisable); None if unknown."""
+    from .feval import feval, Unknown
+    out = {}
+    for L in lengths:
+        try:
+            out[L] = feval(e, {var: bytes(range(L))}, _nacl_consts)
+        except Unknown:
+            return None
+    return out
+
+
 def _resolve_txt(txt: str) -> str:
     for k, v in NACL_CONST.items():
         txt = txt.replace(k, str(v))
@@ -469,6 +554,58 @@ def _flag_vars_from_tape(w: World, fi) -> set[str]:
             if k.tag == 'index' and k.src.tag == 'tape_read' and k.src.size.tag == 'const' and k.src.size.value == 1:
                 out.add(n.ast.targets[0].id)
     return out
+
+
+def _subset_semantics(sw, sigflag_vars, allow_vars):
+    """F(v, a) -> True / False / None: do all guards of the walk that mention the signature-flag or the allowed-flags
+    variable pass for signature flag v and allowed operand a?  None when a guard cannot be evaluated."""
+    from .feval import feval, Unknown, free_names
+    from . import symwalk as _sw
+    sv, av = next(iter(sigflag_vars)), next(iter(allow_vars))
+    consts = _sw.DEFAULT_CONSTS[0]
+    # locals that are plain constants (mask tables and the like)
+    base = {}
+    for e in sw.events:
+        if e.kind == 'assign' and e.target and e.target not in (sv, av) and e.expr is not None:
+            try:
+                base[e.target] = feval(e.expr, dict(base), consts)
+            except Unknown:
+                base.pop(e.target, None)
+    clauses = [(e.guards, e.expr) for e in sw.events if e.kind == 'guard' and (free_names(e.expr) & {sv, av})]
+    if not clauses:
+        return None
+    memo = {}
+
+    def F(v, a):
+        if (v, a) in memo:
+            return memo[(v, a)]
+        env = dict(base)
+        env.update({sv: v, av: a})
+        res = True
+        for pcs, cond in clauses:
+            taken = True
+            for t, pol in pcs:
+                try:
+                    if bool(feval(t, dict(env), consts)) != pol:
+                        taken = False
+                        break
+                except Unknown:
+                    continue            # a condition about something else: consider the path taken
+            if not taken:
+                continue
+            try:
+                if not feval(cond, dict(env), consts):
+                    res = False
+                    break
+            except Unknown:
+                res = None
+                break
+        memo[(v, a)] = res
+        return res
+    # usable only if it evaluates at all
+    if F(0, 0) is None or F(1, 0) is None or F(0x80, 0xFF) is None:
+        return None
+    return F
 
 
 def _single_subset_guard(sw, cfg, sigflag_vars, allow_vars) -> bool:
